@@ -233,6 +233,14 @@ def container_positions(doc, base):
             if isinstance(ps.get("items"), dict): out.append((pp + "/items", ps["items"], tid, pn, "items"))
             if isinstance(ps.get("additionalProperties"), dict) and not ps.get("properties"):
                 out.append((pp + "/additionalProperties", ps["additionalProperties"], tid, pn, "values"))
+            # a nullable member spelled as a union with `null`: the other branch is a subschema in its own right (the member is
+            # then `Option` of whatever that branch converts to)
+            for comb in ("oneOf", "anyOf"):
+                bs = ps.get(comb)
+                if isinstance(bs, list) and len(bs) == 2 and not (set(ps) - set(META_KEYS) - {comb}):
+                    nulls = [i for i, b in enumerate(bs) if isinstance(b, dict) and b.get("type") == "null" and not (set(b) - set(META_KEYS) - {"type"})]
+                    if len(nulls) == 1 and isinstance(bs[1 - nulls[0]], dict):
+                        out.append(("%s/%s/%d" % (pp, comb, 1 - nulls[0]), bs[1 - nulls[0]], tid, pn, "direct"))
     return out
 
 def convertible(s):
@@ -505,6 +513,8 @@ def oracle_case(plan, base, a, real0, real):
             ty = strip_opt(ns(fl["ty"]))
             want = {"direct": path, "items": "::std::vec::Vec<%s>" % path, "values": "%s<::std::string::String,%s>" % (ns(map_type), path)}[shape]
             if shape == "items" and not ty.startswith("::std::vec::Vec<"): continue      # sets, tuples
+            # (a map whose keys are constrained - `propertyNames` - has a key type of its own: only the VALUE type is the conversion's)
+            if shape == "values" and ty.startswith(ns(map_type) + "<") and ty.endswith("," + path + ">"): continue
             if ty != want: f.append(("convert", "%s (%s): member type %s, expected %s" % (ptr, shape, ty, want)))
     # ---- patch
     if plan.primary == "patch":
